@@ -32,7 +32,7 @@ ASSUMPTIONS = ["projected headings of non-planar poses are adopted from the expo
 PI = math.pi
 
 
-def write_inputs(rng, fmt, work):
+def write_inputs(rng, fmt, work, odd_names=False):
     """returns dict name -> (path, shadow), ref (path, shadow) or None"""
     os.makedirs(os.path.join(work, "in"), exist_ok=True)
     n_base = int(rng.integers(8, 60))
@@ -129,12 +129,18 @@ def write_inputs(rng, fmt, work):
     # file names: plain, or with dots inside the stem (parameter values, versions); the export of
     # <stem>.<ext> is <stem>.tum / <stem>.kitti
     dotted = bool(rng.random() < .2)
+    # legal names that start with a character some command-line conventions give a meaning to
+    # ('@' argument files, '+' options, '~' home, '%' jobs) or contain '=' / ','
+    odd = bool(not dotted and rng.random() < .15) or odd_names
+    dotted = dotted and not odd
     for i in range(k):
         name = ("vio_thresh0.%d%s" % ([5, 25, 125][i], ext_name)) if dotted else "traj_%s%s" % ("abc"[i], ext_name)
+        if odd:
+            name = ["@odom_%s%s", "+run_%s%s", "%%job_%s%s", "run=%s,v2%s"][(i + int(n_base)) % 4] % ("abc"[i], ext_name)
         trajs[name] = dump(variant(i), name, fmt)
     ref = None
     if rng.random() < .7:
-        ref = dump(variant(7, is_ref=True), ("gt.v1.2" if dotted else "gt") + ext_name, fmt)
+        ref = dump(variant(7, is_ref=True), ("gt.v1.2" if dotted else "@gt" if odd and n_base % 2 else "gt") + ext_name, fmt)
         if rng.random() < .12:
             # another input whose name differs from the reference's only in letter case (a different
             # file on this file system: it is one of the trajectories, not the reference)
@@ -395,7 +401,7 @@ def compare_export(run, case, sh, text, kind, plane, cond, what, argv):
 
 def traj_cli(run, case, rng, work):
     fmt = case.get("fmt") or ["tum", "tum", "kitti", "euroc"][rng.integers(4)]
-    trajs, ref, meta = write_inputs(rng, fmt, work)
+    trajs, ref, meta = write_inputs(rng, fmt, work, odd_names=bool(case.get("odd_names")))
     argv_o, o = draw_options(rng, fmt, trajs, ref, meta, work, force=case.get("force"))
     if fmt == "kitti" and not (o["align"] or o["correct_scale"]) and (rng.random() < .4 or case.get("unequal")):
         # pose files of different lengths (a run that ended early, a reference covering only the
@@ -423,7 +429,18 @@ def traj_cli(run, case, rng, work):
     out_dir = os.path.join(work, "out")
     os.makedirs(out_dir)
     relocated = []
-    if o["merge"] and o["use_ref"] and ref is not None and not case.get("exe") and rng.random() < .5:
+    at_files = [pth for (pth, sh) in list(trajs.values()) + ([ref] if ref is not None else [])
+                if os.path.basename(pth).startswith("@")]
+    if at_files:
+        # files whose names start with '@' named the way a user in that directory names them (the
+        # bare file name is the whole argument)
+        import shutil
+        for pth in at_files:
+            shutil.copy(pth, os.path.join(out_dir, os.path.basename(pth)))
+            relocated.append(os.path.basename(pth))
+        argv = [os.path.basename(a) if a in at_files else a for a in argv]
+        run.hit("input files named by a bare name starting with '@'")
+    if o["merge"] and o["use_ref"] and ref is not None and not case.get("exe") and not relocated and rng.random() < .5:
         # runs kept in one directory each, all files called like the reference, relative paths:
         #   evo_traj tum run_0/gt.txt run_1/gt.txt --ref gt.txt --merge
         import shutil
